@@ -47,6 +47,10 @@ Theorem C15_src_text_lines_is_model : forall t iw ih,
   = text_lines f (cstyle_of (Text_MonoTextStyle_character_style t)) (Text_MonoTextStyle_text_style t) (Text_MonoTextStyle_position t) (Text_MonoTextStyle_text t).
 Proof. exact src_text_lines_eq. Qed.
 
+(* round 5: DecorationColor::is_none (mono_font/mono_text_style.rs) is the model's dcolor_is_none *)
+Theorem C15_src_decoration_color_is_none_is_model : forall d, src_DecorationColor_is_none d = dcolor_is_none d.
+Proof. intros []; reflexivity. Qed.
+
 Example C15_src_style_nonvacuous :
   let font := Build_MonoFont (IR [] (Geometry.S 96 27) 1 false) (Geometry.S 6 9) 1 7 (Deco 4 1) (Deco 8 1) (fun c => c - 32) in
   let st := Build_MonoTextStyle (Some 1) (Some 0) DTextColor DNone font in
